@@ -107,16 +107,27 @@ func (y *c04Sys) runTree(descs []c04Desc) (c04Result, *engine.Violation) {
 	alice := world.Addr("alice")
 	var wds []wd
 	l1seq := uint64(0)
-	relay := func(to string, coin sdk.Coin, l1denom string) (world.DeliverResult, bool) {
-		res := y.w1.Deliver(c1, ophosttypes.NewMsgInitiateTokenDeposit(alice.String(), 1, to, coin, nil))
+	// relay: the deposit goes through the real L1 handler; what reaches L2 is exactly what L1's event
+	// announces (sender spelling included), as a faithful executor would relay it
+	relayFrom := func(sender, to string, coin sdk.Coin, l1denom string) (world.DeliverResult, bool) {
+		res := y.w1.Deliver(c1, ophosttypes.NewMsgInitiateTokenDeposit(sender, 1, to, coin, nil))
 		r.transitions++
 		if !res.OK() {
 			return res, false
 		}
 		l1seq++
-		res2 := y.w2.Deliver(c2, opchildtypes.NewMsgFinalizeTokenDeposit(world.Addr("executor").String(), alice.String(), to, sdk.NewCoin(ref.L2Denom(1, l1denom), coin.Amount), l1seq, uint64(c1.BlockHeight()), l1denom, nil))
+		evs := world.EventsOfType(res.Events, "initiate_token_deposit")
+		if len(evs) != 1 {
+			return world.DeliverResult{Err: fmt.Errorf("%d initiate_token_deposit events", len(evs))}, true
+		}
+		g := func(k string) string { v, _ := world.Attr(evs[0], k); return v }
+		eamt, _ := math.NewIntFromString(g("amount"))
+		res2 := y.w2.Deliver(c2, opchildtypes.NewMsgFinalizeTokenDeposit(world.Addr("executor").String(), g("from"), g("to"), sdk.NewCoin(g("l2_denom"), eamt), l1seq, uint64(c1.BlockHeight()), g("l1_denom"), nil))
 		r.transitions++
 		return res2, true
+	}
+	relay := func(to string, coin sdk.Coin, l1denom string) (world.DeliverResult, bool) {
+		return relayFrom(alice.String(), to, coin, l1denom)
 	}
 	parse := func(evs sdk.Events) *engine.Violation {
 		for _, e := range world.EventsOfType(evs, "initiate_token_withdrawal") {
@@ -142,8 +153,12 @@ func (y *c04Sys) runTree(descs []c04Desc) (c04Result, *engine.Violation) {
 		amt, _ := math.NewIntFromString(d.Amount)
 		l2d := ref.L2Denom(1, d.Denom)
 		switch d.Kind {
-		case "refund":
-			res, accepted := relay("garbage-recipient", sdk.NewCoin(d.Denom, amt), d.Denom)
+		case "refund", "refund-upper-sender":
+			sender := alice.String()
+			if d.Kind == "refund-upper-sender" {
+				sender = strings.ToUpper(sender) // the same account, spelled in upper case: the refund goes back to this string
+			}
+			res, accepted := relayFrom(sender, "garbage-recipient", sdk.NewCoin(d.Denom, amt), d.Denom)
 			if !accepted {
 				r.refusedAtEntry++
 				continue
@@ -232,7 +247,12 @@ func (y *c04Sys) runTree(descs []c04Desc) (c04Result, *engine.Violation) {
 		return r, nil
 	}
 	t := mkTree("c04", wds, 0)
-	if res := y.w1.Deliver(c1, ophosttypes.NewMsgProposeOutput(world.Addr("proposer").String(), 1, 1, 10, t.OutputRoot[:])); !res.OK() {
+	// the committing output is the bridge's second one (index 2 on bridge 1: index and bridge id differ)
+	other := ref.Sum256([]byte("an earlier output"))
+	if res := y.w1.Deliver(c1, ophosttypes.NewMsgProposeOutput(world.Addr("proposer").String(), 1, 1, 5, other[:])); !res.OK() {
+		return r, viol("faithful-proposal-is-accepted", "proposal failed: %v", res.Err)
+	}
+	if res := y.w1.Deliver(c1, ophosttypes.NewMsgProposeOutput(world.Addr("proposer").String(), 1, 2, 10, t.OutputRoot[:])); !res.OK() {
 		return r, viol("faithful-proposal-is-accepted", "proposal failed: %v", res.Err)
 	}
 	r.transitions++
@@ -243,7 +263,7 @@ func (y *c04Sys) runTree(descs []c04Desc) (c04Result, *engine.Violation) {
 			continue // not a valid L1 recipient: outside the property
 		}
 		before := y.w1.BK.GetBalance(c1, to, w.Denom).Amount
-		res := y.w1.Deliver(c1, t.claim(i, 1, "bob"))
+		res := y.w1.Deliver(c1, t.claim(i, 2, "bob"))
 		r.transitions++
 		if !res.OK() {
 			return r, tagged(viol("recorded-withdrawal-is-claimable", "claim of recorded %s (leaf %d of %d) failed: %v", w, i, len(wds), res.Err), "amount", "<2^64", "kind", kindOf(w.From))
@@ -277,6 +297,7 @@ func c04Run(rc *engine.RunCtx) *engine.Result {
 			}
 			full = append(full, c04Desc{"refund", a, d, ""})
 		}
+		full = append(full, c04Desc{"refund-upper-sender", a, "uinit", ""})
 	}
 	for _, a := range []string{"1", "9223372036854775808", "18446744073709551615"} {
 		for _, rcp := range []string{"lower", "upper"} {
@@ -291,6 +312,7 @@ func c04Run(rc *engine.RunCtx) *engine.Result {
 	}
 	small = append(small, c04Desc{"hook", "1", "uinit", "lower"})
 	small = append(small, c04Desc{"user", "1", "uinit", "module"})
+	small = append(small, c04Desc{"refund-upper-sender", "1", "uinit", ""})
 	var trees [][]c04Desc
 	for _, d := range full {
 		trees = append(trees, []c04Desc{d})
@@ -367,7 +389,7 @@ func c04Run(rc *engine.RunCtx) *engine.Result {
 	res.Coverage["withdrawals_recorded"] = total.recorded
 	res.Coverage["withdrawals_claimed"] = total.claimed
 	res.Coverage["refused_at_entry_point"] = total.refusedAtEntry
-	res.Coverage["menu"] = map[string]any{"amounts": []string{"1", "2^63-1", "2^63", "2^64-1", "2^64", "2^64+1", "2^128"}, "denoms": []string{"uinit", "128-char denom", "ibc/<hash> with slash"}, "recipients": []string{"lower-case bech32", "upper-case bech32", "fresh account", "L1 module account on the bank's blocked list"}, "kinds": []string{"user withdrawal", "refund of a deposit with a malformed recipient", "user withdrawals (one, or two for amounts above 1) executed inside the deposit's own hook"}, "exhaustive_tree_sizes": maxExh}
+	res.Coverage["menu"] = map[string]any{"amounts": []string{"1", "2^63-1", "2^63", "2^64-1", "2^64", "2^64+1", "2^128"}, "denoms": []string{"uinit", "128-char denom", "ibc/<hash> with slash"}, "recipients": []string{"lower-case bech32", "upper-case bech32", "fresh account", "L1 module account on the bank's blocked list"}, "kinds": []string{"user withdrawal", "refund of a deposit with a malformed recipient (also with the L1 sender spelled in upper case)", "user withdrawals (one, or two for amounts above 1) executed inside the deposit's own hook"}, "exhaustive_tree_sizes": maxExh}
 	res.Coverage["oracle"] = "every withdrawal event L2 emits for a positive amount and a valid L1 recipient: after proposing the tree built by the independent builder and finalizing it, the L1 claim succeeds and pays exactly the recorded amount; a recorded amount that does not fit the leaf format is a violation (the entry points must refuse what can never be completed)"
 	res.Assumptions = []string{"user holdings above what one deposit carries are produced by minting on L2 and funding the escrow on L1 (several deposits can add up to any amount)"}
 	res.Require(total.claimed > 100, "only %d claims succeeded", total.claimed)
